@@ -51,10 +51,10 @@ def scenario(exe, shim, root, seed, stats, tier):
     iocache = rng.choice(['1', '3', '4', '16', '128'])
     base_args = ['--test-io-cache', iocache]
     if cmdkind == 'sync':
-        args = base_args + ['--force-empty', '--force-zero']
+        args = base_args + ['--force-empty', '--force-zero'] + (['-h'] if rng.chance(1, 3) else [])      # -h: reads also happen in the pre-hash phase
     else:
         args = base_args + ['-p', 'full']
-    cfg = 'ndisks=%d nparity=%d cmd=%s io-cache=%s seed=%d' % (nd, npar, cmdkind, iocache, seed)
+    cfg = 'ndisks=%d nparity=%d cmd=%s%s io-cache=%s seed=%d' % (nd, npar, cmdkind, ' -h' if '-h' in args else '', iocache, seed)
     # count the calls of each class in a fault-free run
     lg = os.path.join(vlib.scratch(), 'c08log%d' % seed)
     classes = []
